@@ -4,15 +4,13 @@
 cd "$(dirname "$0")/.."
 seeds=${@:-2 3 5}
 rc=0
-export VERIF_ROOT=$(mktemp -d /dev/shm/verifroot.XXXXXX)   # evidence and replays of these runs do not touch the committed ones
-mkdir -p $VERIF_ROOT; cp known_findings.json MANIFEST.json $VERIF_ROOT/; ln -s $PWD/harness $VERIF_ROOT/harness; ln -s $PWD/simrt $VERIF_ROOT/simrt
-for f in go.mod go.sum tape chansim internal seqrt cmd; do ln -s $PWD/$f $VERIF_ROOT/$f; done
+export VERIF_EVIDENCE_DIR=$(mktemp -d /dev/shm/verifev.XXXXXX)   # evidence of these runs does not touch the committed files
 for s in $seeds; do
   for id in $(python3 -c "import json;print(' '.join(c['property_id'] for c in json.load(open('MANIFEST.json'))['checks']))"); do
     out=$(VERIF_SEED=$s bin/verif check $id --tier quick 2>&1); code=$?
     echo "seed=$s $id exit=$code :: $(echo "$out" | grep -v '^KNOWN' | tail -1 | cut -c1-140)"
-    [ $code -ne 0 ] && { rc=1; echo "$out" | grep -v '^KNOWN' | tail -4 | cut -c1-400; cp $VERIF_ROOT/replays/*.json replays/ 2>/dev/null; }
+    [ $code -ne 0 ] && { rc=1; echo "$out" | grep -v '^KNOWN' | tail -4 | cut -c1-400; }
   done
 done
-rm -rf $VERIF_ROOT
+rm -rf $VERIF_EVIDENCE_DIR
 exit $rc
